@@ -6,7 +6,7 @@
 From Coq Require Import List NArith Bool.
 From Coq.Strings Require Import Byte.
 Import ListNotations.
-From OV Require Import Base.Bytes Base.Tree Model.Pipeline Proofs.Pipeline Proofs.PipelineInst Proofs.PipelineCanon.
+From OV Require Import Base.Bytes Base.Tree Model.Pipeline Proofs.Pipeline Proofs.PipelineCache Proofs.PipelineInst Proofs.PipelineCanon.
 
 Section C13.
   Variable schema V C : Type.
@@ -68,6 +68,54 @@ Proof. exact alloc_n_spec. Qed.
 Theorem release_keeps_invariant : forall n used a,
   AInv used a -> AInv used (release n a) /\ a_pooling (release n a) = a_pooling a.
 Proof. exact release_spec. Qed.
+
+(* ---- the cache ingredients (what an integrator discharges eval_caches_sound with) ------------- *)
+(* go-corelib LoadingCache (the xpath expression cache, the JS program cache and the node-JSON
+   cache are instances): for EVERY capacity (unbounded, n, one) and every content consistent with
+   the loader, Get returns the loader's answer and stays consistent. *)
+Theorem loading_cache_pure : forall (K V : Type) (keqb : K -> K -> bool),
+  (forall a b, keqb a b = true <-> a = b) ->
+  forall load k c, LcOK K V load c ->
+    fst (lc_get K V keqb load k c) = load k /\ LcOK K V load (snd (lc_get K V keqb load k c)).
+Proof. exact lc_get_pure. Qed.
+
+Theorem loading_cache_capacity_irrelevant : forall (K V : Type) (keqb : K -> K -> bool),
+  (forall a b, keqb a b = true <-> a = b) ->
+  forall load k c c', LcOK K V load c -> LcOK K V load c' ->
+    fst (lc_get K V keqb load k c) = fst (lc_get K V keqb load k c').
+Proof. exact lc_get_capacity_irrelevant. Qed.
+
+(* idr/query.go:26-47: a compiled expression is a function of its text; dynamic xpaths bypass the
+   cache and leave it untouched.  compile = xpath.Compile, any deterministic function. *)
+Theorem expr_cache_pure : forall (E : Type) (compile : bytes -> option E) dynamic text c,
+  LcOK bytes E compile c ->
+  fst (load_xpath_expr compile dynamic text c) = compile text /\
+  LcOK bytes E compile (snd (load_xpath_expr compile dynamic text c)) /\
+  (dynamic = true -> snd (load_xpath_expr compile dynamic text c) = c).
+Proof. exact @expr_cache_pure. Qed.
+
+Theorem program_cache_pure : forall (P : Type) (compile : bytes -> option P) off js c,
+  LcOK bytes P compile c ->
+  fst (get_program compile off js c) = compile js /\
+  LcOK bytes P compile (snd (get_program compile off js c)).
+Proof. exact @program_cache_pure. Qed.
+
+(* javascript.go:58-66: under content_stable_per_id (the JSON of the nodes carrying an ID is a
+   function of the ID) the node-JSON cache is invisible, on, off, or with any capacity ... *)
+Theorem node_json_fresh : forall (content : N -> bytes) off id json c,
+  LcOK N bytes (fun k => Some (content k)) c -> content id = json ->
+  fst (get_node_json off id json c) = json /\
+  LcOK N bytes (fun k => Some (content k)) (snd (get_node_json off id json c)).
+Proof. exact node_json_fresh. Qed.
+
+(* ... and visible otherwise: after a call stored j1 under an ID, a call for a node with the
+   same ID and content j2 returns j1 with caching on and j2 with caching off (F6). *)
+Theorem node_json_refuted :
+  exists (id : N) (j1 j2 : bytes) (c : lcache N bytes),
+    j1 <> j2 /\
+    let c1 := snd (get_node_json false id j1 c) in
+    fst (get_node_json false id j2 c1) = j1 /\ fst (get_node_json true id j2 c1) = j2.
+Proof. exact node_json_refuted. Qed.
 
 (* F6: the guard is necessary.  The miniature evaluator asked to JSONify the root (an ancestor of
    the streamed records) satisfies every other hypothesis, both hidden states satisfy Inv, and
